@@ -1,6 +1,6 @@
 (* C06 - The playable-card set is exactly the follow-suit rule.
    Only statements, each closed by [exact]; proofs are in the files imported below. *)
-From BE Require Import Model.Play Spec.PlayLaws Proofs.Play.
+From BE Require Import Model.Play Spec.PlayLaws Gen.PlayFns Proofs.Play Proofs.PlayGen Proofs.PlayGenCor.
 Local Open Scope nat_scope.
 
 Theorem C06_available_spec :
@@ -38,6 +38,40 @@ Theorem C06_current :
   forall s hand, current_available s hand = available hand (hd_error (trick s)).
 Proof. exact current_available_is_available. Qed.
 Print Assumptions C06_current.
+
+(* available_cards regenerated from playing_phase.py on every run *)
+Theorem C06_generated_available_is_hand_model :
+  forall hand first, g_available hand first = available hand first.
+Proof. exact g_available_eq. Qed.
+Print Assumptions C06_generated_available_is_hand_model.
+
+Theorem C06_generated_current_available :
+  forall s hand, g_current_available s hand = Some (current_available s hand).
+Proof. exact g_current_available_eq. Qed.
+Print Assumptions C06_generated_current_available.
+
+Theorem C06_generated_hands_available :
+  forall s p, g_hands_available s p = Some (current_available (hbase s) (hands s p)).
+Proof. exact g_hands_available_eq. Qed.
+Print Assumptions C06_generated_hands_available.
+
+Theorem C06_generated_observer_available :
+  forall s,
+  g_obs_available_in_hand s = Some (current_available (obase s) (ohand s)).
+Proof. exact g_obs_available_in_hand_eq. Qed.
+Print Assumptions C06_generated_observer_available.
+
+Theorem C06_generated_observer_dummy_available :
+  forall s,
+  g_obs_available_in_dummy s = option_map (current_available (obase s)) (odummy s).
+Proof. exact g_obs_available_in_dummy_eq. Qed.
+Print Assumptions C06_generated_observer_dummy_available.
+
+(* the property, for the regenerated function *)
+Theorem C06_available_spec_generated :
+  forall hand led c, In c (g_available hand led) <-> may_play hand led c.
+Proof. exact g_available_spec. Qed.
+Print Assumptions C06_available_spec_generated.
 
 (* random.choice(list(set)) as "some index" *)
 Theorem C06_random_play_in_set :
